@@ -1,2 +1,49 @@
 //! Proof harnesses for rsass/src/css/comment.rs
+//! Unit U-comment (C36, C07): `Comment::write` on the real `CssBuf`, for
+//! concrete comment texts (bounded).  Found necessary after the repair that
+//! keeps `/*!` comments in compressed style: that made `Comment::write`
+//! reachable in compressed style, where its re-indentation used to insert a
+//! line break between every two characters.
 use super::*;
+use crate::output::{Format, Style};
+
+fn written(text: &str, style: Style, depth: usize) -> Vec<u8> {
+    let mut buf = CssBuf::new(Format { style, precision: 5 });
+    let mut d = 0;
+    while d < depth {
+        buf.start_block();
+        d += 1;
+    }
+    let before = buf.len();
+    Comment(String::from(text)).write(&mut buf);
+    let out = buf.take();
+    out[before..].to_vec()
+}
+
+/// C36 / C07: a `/*!` comment kept in compressed style is written as one
+/// comment token with its text and without a line break — also a
+/// multi-line one, whatever its indentation.
+#[kani::proof]
+#[kani::stub(crate::output::format::long_indent, crate::output::format::kani_verif::long_indent_by_contract)]
+#[kani::unwind(14)]
+fn c36_comment_write_compressed_multi_line() {
+    // indented deeper than the block it is in (depth 0)
+    let out = written("! a\n   b ", Style::Compressed, 0);
+    assert!(out == b"/*! a    b */", "compressed: the text on one line, nothing inserted, nothing lost");
+}
+#[kani::proof]
+#[kani::stub(crate::output::format::long_indent, crate::output::format::kani_verif::long_indent_by_contract)]
+#[kani::unwind(14)]
+fn c36_comment_write_compressed_single_line() {
+    let out = written("! keep ", Style::Compressed, 1);
+    assert!(out == b"/*! keep */", "compressed: /*! keep */");
+}
+/// C36: in expanded style the comment is emitted with its text, on its own
+/// line(s).
+#[kani::proof]
+#[kani::stub(crate::output::format::long_indent, crate::output::format::kani_verif::long_indent_by_contract)]
+#[kani::unwind(14)]
+fn c36_comment_write_expanded_single_line() {
+    let out = written(" plain ", Style::Expanded, 0);
+    assert!(out == b"/* plain */\n", "expanded: /* plain */ and a newline");
+}
